@@ -335,6 +335,11 @@ def reify_factor(f, names):
         return ['powt', 1]
     if f.is_Pow and f.args[0] == tsym and f.args[1].is_Integer and int(f.args[1]) >= 2:
         return ['powt', int(f.args[1])]
+    if f.is_Add:
+        p = f.as_poly(tsym)
+        if p is None or any(c.has(tsym) for c in p.all_coeffs()):
+            raise Unreifiable('sum factor ' + str(f)[:40])
+        return ['poly', list(reversed(p.all_coeffs()))]
     if isinstance(f, sp.DiracDelta):
         k = 0
         if len(f.args) == 2:
@@ -399,6 +404,14 @@ def reify(x, names):
                 c = c * f
             else:
                 fs.append(reify_factor(f, names))
+        polys = [f for f in fs if f[0] == 'poly']
+        if len(polys) > 1:
+            prod = sp.Poly(1, tsym)
+            for f in polys:
+                prod = prod * sp.Poly(sum(cc * tsym ** i for i, cc in enumerate(f[1])), tsym)
+            i0 = fs.index(polys[0])
+            fs = [f for f in fs if f[0] != 'poly']
+            fs.insert(i0, ['poly', list(reversed(prod.all_coeffs()))])
         out.append((c, fs))
     return out
 
@@ -410,7 +423,7 @@ def ast_at(sym_ast, pt):
         for f in fs:
             g = [f[0]]
             for a in f[1:]:
-                g.append(a if isinstance(a, int) else pt.const(a).js())
+                g.append(a if isinstance(a, int) else ([pt.const(x).js() for x in a] if isinstance(a, list) else pt.const(a).js()))
             lf.append(g)
         out.append({'c': pt.const(c).js(), 'fs': lf})
     return out
@@ -453,6 +466,8 @@ class Oracle:
         tag = f[0]
         if tag == 'powt':
             return x ** f[1]
+        if tag == 'poly':
+            return mp.fsum(cnum(c) * x ** i for i, c in enumerate(f[1]))
         a = None
         if tag in ('exp', 'sin', 'cos', 'sinh', 'cosh'):
             a, b = cnum(f[1]), cnum(f[2])
